@@ -3,6 +3,8 @@ import RsMatterVerif.Lemmas.CodecBase38
 import RsMatterVerif.Lemmas.CodecVerhoeff
 import RsMatterVerif.Lemmas.CodecManual
 import RsMatterVerif.Lemmas.CodecHeaders
+import RsMatterVerif.Lemmas.CodecBtpBdx
+import RsMatterVerif.Lemmas.CodecCheckIn
 /-!
 # C17 — headers, onboarding payloads and discovery records decode what was encoded
 
@@ -151,5 +153,62 @@ theorem status_report_unknown_general_code_rejected (g : Nat) (rest : List Nat)
     (h : StatusReport.GENERAL_CODE_MAX < g) (h' : g < 65536) :
     StatusReport.read (le16 g ++ rest) = .error .invalidOpcode :=
   StatusReport.read_rejects_general g rest h h'
+
+/-! ## (7) BTP packet header and handshake -/
+
+theorem btp_hdr_decode_encode (h h0 : BtpHdr.Hdr) (rest : List Nat) (hwf : BtpHdr.WF h) :
+    ∃ h', BtpHdr.decode h0 (BtpHdr.encodeBytes h ++ rest) = .ok (h', rest) ∧ BtpHdr.view h' = BtpHdr.view h :=
+  BtpHdr.decode_encode h h0 rest hwf
+example : BtpHdr.WF { flags := 0x0D, opcode := 0, ackNum := 3, seqNum := 4, msgLen := 300 } := by decide
+
+theorem btp_hdr_decode_total (h0 : BtpHdr.Hdr) (l : List Nat) : NoPanic (BtpHdr.decode h0 l) :=
+  BtpHdr.decode_np h0 l
+
+theorem btp_handshake_req_decode_encode (r : BtpHdr.Req) (rest : List Nat) (hwf : BtpHdr.Req.WF r) :
+    BtpHdr.Req.decode (BtpHdr.Req.encodeBytes r ++ rest) = .ok (r, rest) :=
+  BtpHdr.req_decode_encode r rest hwf
+example : BtpHdr.Req.WF { versions := 4, mtu := 247, window := 6 } := by
+  refine ⟨by decide, by decide, by decide⟩
+
+theorem btp_handshake_resp_decode_encode (r : BtpHdr.Resp) (rest : List Nat) (hwf : BtpHdr.Resp.WF r) :
+    BtpHdr.Resp.decode (BtpHdr.Resp.encodeBytes r ++ rest) = .ok (r, rest) :=
+  BtpHdr.resp_decode_encode r rest hwf
+example : BtpHdr.Resp.WF { version := 4, mtu := 247, window := 6 } := by
+  refine ⟨by decide, by decide, by decide⟩
+
+theorem btp_handshake_decode_total (l : List Nat) :
+    NoPanic (BtpHdr.Req.decode l) ∧ NoPanic (BtpHdr.Resp.decode l) :=
+  ⟨BtpHdr.req_decode_np l, BtpHdr.resp_decode_np l⟩
+
+/-! ## (8) check-in message framing, symbolic AEAD -/
+
+theorem checkin_parse_generate (S : CheckIn.Scheme) (hS : S.Sound) (key app : List Nat) (ctr cap : Nat)
+    (hc : ctr < 4294967296) (hcap : CheckIn.MIN_PAYLOAD_LEN + app.length ≤ cap) :
+    ∃ p, CheckIn.generate S key ctr app cap = .ok p ∧ p.length = CheckIn.MIN_PAYLOAD_LEN + app.length ∧
+      CheckIn.parse S key p = .ok (ctr, app) :=
+  CheckIn.parse_generate S hS key app ctr cap hc hcap
+example : CheckIn.toyScheme.Sound := CheckIn.toyScheme_sound
+
+theorem checkin_parse_total (S : CheckIn.Scheme) (hS : S.Sound) (key payload : List Nat) :
+    NoPanic (CheckIn.parse S key payload) :=
+  CheckIn.parse_np S hS key payload
+
+/-! ## (9) BDX messages -/
+
+theorem bdx_init_parse_write (t : Bdx.TransferInit) (hwf : Bdx.TransferInit.WF t) :
+    Bdx.TransferInit.parse t.writeBytes = .ok t :=
+  Bdx.init_parse_write t hwf
+
+theorem bdx_accept_parse_write (t : Bdx.TransferAccept) (hwf : Bdx.TransferAccept.WF t) :
+    Bdx.TransferAccept.parse t.receive t.writeBytes = .ok t :=
+  Bdx.accept_parse_write t hwf
+
+theorem bdx_block_parse_write (b : Bdx.Block) (h : b.counter < 4294967296) : Bdx.Block.parse b.writeBytes = .ok b :=
+  Bdx.block_parse_write b h
+
+theorem bdx_parsers_total (l : List Nat) (r : Bool) :
+    NoPanic (Bdx.TransferInit.parse l) ∧ NoPanic (Bdx.TransferAccept.parse r l) ∧ NoPanic (Bdx.Block.parse l) ∧
+    NoPanic (Bdx.blockQueryParse l) ∧ NoPanic (Bdx.blockQuerySkipParse l) :=
+  ⟨Bdx.init_parse_np l, Bdx.accept_parse_np r l, Bdx.block_parse_np l, Bdx.blockQuery_np l, Bdx.blockQuerySkip_np l⟩
 
 end C17
